@@ -130,7 +130,7 @@ def r1_r4(run: Run, rt):
                     if v.kind != 'datetime':
                         problems.append(('date-not-lifted', f'the {side} operand ({kk}) reaches the comparison as {v.kind}: a date '
                                                             f'must be compared as the date-time at its midnight'))
-                    elif kk == 'date' and v.val != 'midnight':
+                    elif kk == 'date' and v.val != 'midnight' and not (isinstance(v.val, tuple) and v.val[:1] == ('ymd',)):
                         problems.append(('date-not-midnight', f'the {side} date is not lifted with datetime(y, m, d)'))
             if problems:
                 for sub, msg in problems:
